@@ -752,3 +752,30 @@ func fieldRead(v ssa.Value) (base ssa.Value, field string, ok bool) {
 	}
 	return nil, "", false
 }
+
+// mayValues: the values a (possibly spilled) result may hold: for a load of a
+// simple local, every reaching stored value (the zero value is ignored).
+func mayValues(v ssa.Value) []ssa.Value {
+	v = stripConv(v)
+	if u, ok := v.(*ssa.UnOp); ok && u.Op == token.MUL {
+		if a, ok := u.X.(*ssa.Alloc); ok {
+			if vals, _, simple := reachingStores(u, a); simple {
+				var out []ssa.Value
+				for _, x := range vals {
+					out = append(out, mayValues(x)...)
+				}
+				return out
+			}
+		}
+	}
+	if ph, ok := v.(*ssa.Phi); ok {
+		var out []ssa.Value
+		for _, e := range ph.Edges {
+			if e != v {
+				out = append(out, stripConv(e))
+			}
+		}
+		return out
+	}
+	return []ssa.Value{v}
+}
